@@ -602,6 +602,31 @@ def operator_messages(seed, n):
     return out
 
 
+def table_d_messages(seed, n):
+    """one message per sampled (version >= 19, Table D sequence): the sequence alone as template, data
+    = sparse random bits (so that delayed replication factors stay small), uncompressed, one subset.
+    No ground truth - programs for the differential oracles (compiled vs interpreted, history vs fresh)."""
+    rng = random.Random(seed)
+    vs = [v for v in bufrgen.table_versions() if v >= 19]
+    out = []
+    for i in range(n):
+        v = rng.choice(vs)
+        _b, d = bufrgen.load_tables(v)
+        sid = rng.choice(sorted(d))
+        p1 = rng.choice([0.0, 0.02, 0.06])
+        length = rng.choice([400, 1500, 3000])
+        data = bytes(sum((1 << k) for k in range(8) if rng.random() < p1) for _ in range(length))
+        spec = {'edition': rng.choice([3, 4]), 'version': v, 'local_version': 0, 'centre': 0, 'subcentre': 0,
+                'category': 0, 'subcategory': 0, 'local_subcategory': 0, 'update': 0, 'date': [2021, 2, 3, 4, 5, 6],
+                'sec2': None, 'pads': {}, 'compressed': False, 'observed': True, 'raw_ids': [sid],
+                'raw_data': data.hex(), 'nsub': 1}
+        msg, _t = bufrgen.write_message(spec)
+        if msg.find(b'BUFR', 1) < 0 and len(msg) <= MAX_MSG:
+            out.append({'ref': 'tabled:%d:%d:v%d:%06d' % (seed, i, v, sid), 'hex': msg.hex(), 'src': 'operator',
+                        'opkind': 'table-d-sequence'})
+    return out
+
+
 def _compress_variant(arg):
     from pybufrkit.decoder import Decoder
     from pybufrkit.encoder import Encoder
